@@ -29,7 +29,7 @@ def SourceBefore : Prop :=
 /-- the source after the patch -/
 def SourceAfter : Prop :=
   cmps = [("ResourceListBuilder.ExportResources", "opts.Inline", "==", "1"),
-          ("ResourceListBuilder.ExportResources", "&& opts.Inline", "==", "1"),
+          ("ResourceListBuilder.ExportResources", "opts.Inline", "==", "1"),
           ("ResourceListBuilder.exportResource", "opts.UseAnonResource", "==", "0"),
           ("ResourceListBuilder.exportResourceStatements", "opts.Inline", "==", "1")] ∧
   marks = [("ResourceListBuilder.ExportResources", "!read"),
